@@ -54,6 +54,13 @@ def cases(tier):
                 out.append({"kind": "NL", "cls": cls, "shape": list(shape), "lset": li})
             for org in (0, 1):
                 out.append({"kind": "intfaces", "cls": cls, "shape": list(shape), "org": org})
+        for sg in U.big_specs([cls]):
+            if sg["sp"][0] == "L":
+                out.append({"kind": "NL", "cls": cls, "shape": sg["shape"], "lset": 1})
+                out.append({"kind": "NL", "cls": cls, "shape": sg["shape"], "lset": 3})
+            else:
+                out.append({"kind": "faces", "grid": sg})
+                out.append({"kind": "faces", "grid": dict(sg, scale=-30)})
         out.append({"kind": "labels", "cls": cls})
     return out
 
@@ -194,7 +201,8 @@ def run_case(case):
         _check_mesh(cls, mesh, fc, res, "%s(N=%s, L=%s)" % (cls, shape, Ls), exact_faces=False)
         # (N, L) form == face-position form on the same equispaced faces
         m2 = getattr(pf, cls)(*[np.asarray(getattr(mesh.facecenters, a)) for a in ("_x", "_y", "_z")[:len(shape)]])
-        if not _close(np.asarray(mesh.cellvolume), np.asarray(m2.cellvolume), ulps=16):
+        # face differences carry an absolute error of ~eps*L, i.e. a relative one of ~eps*N per factor
+        if not _close(np.asarray(mesh.cellvolume), np.asarray(m2.cellvolume), ulps=16 * max(1, max(shape))):
             res["findings"].append({"key": "C10:NL_vs_faces:%s" % cls, "msg": "(N,L) form and face form give different volumes",
                                     "detail": {"shape": shape, "L": Ls}})
         for a in ("_x", "_y", "_z")[:len(shape)]:
